@@ -140,7 +140,11 @@ type Case struct {
 	Value string `json:"value"`
 	Mode  string `json:"mode"`
 	Query string `json:"query"`
-	Vars  string `json:"variables,omitempty"` // JSON text of the variables object
+	// Vars is the request's `variables` carrier exactly as sent: "" = the key / URL
+	// parameter is absent, otherwise the JSON text (null, {}, {"zz":1}, {"v":...})
+	Vars string `json:"variables,omitempty"`
+	// Transport: "" = POST (application/json body), "GET" = query-string parameters
+	Transport string `json:"transport,omitempty"`
 	// classification for signatures
 	PosType string `json:"pos_type"`
 	Class   string `json:"class"`
@@ -474,7 +478,15 @@ func (g *Gen) Cases(p Position, reduced bool) []Case {
 		posType += "+default"
 	}
 	emit := func(mode string, lv LVal, q, vars string) {
-		out = append(out, Case{Pos: p.String(), Value: lv.Label, Mode: mode, Query: q, Vars: vars, PosType: posType, Class: lv.Class})
+		if vars != "{}" {
+			out = append(out, Case{Pos: p.String(), Value: lv.Label, Mode: mode, Query: q, Vars: vars, PosType: posType, Class: lv.Class})
+			return
+		}
+		// the variable is not provided: every carrier that says so — no `variables` key at
+		// all, null, an empty object, an object that holds only some other key
+		for _, cr := range [][2]string{{"{}", "empty-object"}, {"", "no-variables-key"}, {"null", "variables-null"}, {`{"zz":1}`, "other-keys-only"}} {
+			out = append(out, Case{Pos: p.String(), Value: lv.Label + " [variables: " + cr[1] + "]", Mode: mode, Query: q, Vars: cr[0], PosType: posType, Class: lv.Class + "(" + cr[1] + ")"})
+		}
 	}
 	// small alphabet for the default-value / non-null-variable variants
 	small := []LVal{alpha[0], alpha[1], {"good", "valid", g.Good(p.Type, 1)}, {`"abc"`, "string", vStr("abc")}, {"1.5", "float", Val{K: "float", Raw: "1.5"}}, {"{}", "empty-object", vObj()}}
@@ -578,6 +590,15 @@ func Corpus() []Case {
 		mk(`{ omit(x: {o: null, os: null, oInner: null}) }`, ""),
 		mk(`{ omit(x: {o: 1, os: 2, oInner: {req: 1}, oStr: "s"}) }`, ""),
 		mk(`{ omit(x: {}) }`, ""),
+		// operations that declare variables, sent without any variables carrier
+		mk(`query($a: Int = 4, $b: String = "vb", $c: [Int] = [7]) { multi(a: $a, b: $b, c: $c) }`, ``),
+		mk(`query($a: Int = 4, $b: String = "vb", $c: [Int] = [7]) { multi(a: $a, b: $b, c: $c) }`, `null`),
+		mk(`query($x: Int = 9) { intDef(x: $x) }`, ``),
+		mk(`query($x: Int) { intDef(x: $x) }`, ``),
+		mk(`query($x: Int!) { intReq(x: $x) }`, ``),
+		mk(`query($x: Int! = 7) { intReq(x: $x) }`, ``),
+		mk(`query($x: Int = 0, $s: String = "", $l: [Int] = []) { multi(a: $x, b: $s, c: $l) }`, ``),
+		mk(`query($b: Boolean = false) { boolDef(x: $b) }`, ``),
 		// bound model methods whose Go parameter order differs from the schema order
 		mk(`{ box { span(from: 1, to: 9) } }`, ""),
 		mk(`{ box { spanDefault } }`, ""),
@@ -606,11 +627,24 @@ func (g *Gen) All() []Case {
 	for _, p := range g.Positions() {
 		out = append(out, g.Cases(p, false)...)
 	}
+	// the same requests over GET where the variables carrier matters most: the variable is
+	// absent or null, or the operation declares a variable default
+	n := len(out)
+	for i := 0; i < n; i++ {
+		c := out[i]
+		if !strings.Contains(c.Query, "$v") && c.Mode != "corpus" {
+			continue
+		}
+		if c.Mode == "corpus" || strings.HasPrefix(c.Class, "absent") || c.Class == "null" || strings.Contains(c.Mode, "default") || strings.Contains(c.Mode, "nonnull-variable") {
+			c.Transport = "GET"
+			out = append(out, c)
+		}
+	}
 	// distinct by request text
 	seen := map[string]bool{}
 	uniq := out[:0]
 	for _, c := range out {
-		k := c.Query + "\x00" + c.Vars
+		k := c.Transport + "\x00" + c.Query + "\x00" + c.Vars
 		if seen[k] {
 			continue
 		}
@@ -621,5 +655,13 @@ func (g *Gen) All() []Case {
 }
 
 func (c Case) String() string {
-	return fmt.Sprintf("%s <- %s (%s): %s  variables=%s", c.Pos, c.Value, c.Mode, c.Query, c.Vars)
+	tr := c.Transport
+	if tr == "" {
+		tr = "POST"
+	}
+	vars := c.Vars
+	if vars == "" {
+		vars = "<key absent>"
+	}
+	return fmt.Sprintf("%s <- %s (%s, %s): %s  variables=%s", c.Pos, c.Value, c.Mode, tr, c.Query, vars)
 }
